@@ -142,6 +142,16 @@ def parseTaskId (s : String) : Except String (Int × String) :=
   | [p, n] => do return (← req p.toInt? "task id point", n)
   | _ => .error s!"bad task id {s}"
 
+/-- hint `ch`: `[[id, [child ids in the order walked]], ...]` -/
+def parseChildHints (v : Option (List Json)) : Except String (List ((Int × String) × List (Int × String))) :=
+  (v.getD []).mapM fun e => do
+    match jArr? e with
+    | some [k, cs] =>
+      let key ← parseTaskId (← req (jStr? k) "task id")
+      let l ← ((jArr? cs).getD []).mapM fun t => do parseTaskId (← req (jStr? t) "task id")
+      return (key, l)
+    | _ => .error "bad child-order hint"
+
 def parseOp (j : Json) : Except String Op := do
   match jStrField? j "op" with
   | some "loop" => return .loop
@@ -179,13 +189,14 @@ def parseOp (j : Json) : Except String Op := do
         let h := hs[k]?.getD Json.null
         pure ({ ids := grp, act := ← idList (jArrField? h "act"), rm := ← idList (jArrField? h "rm"),
                 sp := ← idList (jArrField? h "sp"),
-                fn := ((jArrField? h "fn").getD []).filterMap jNat? } : GroupHint)
+                fn := ((jArrField? h "fn").getD []).filterMap jNat?,
+                ch := ← parseChildHints (jArrField? h "ch") } : GroupHint)
       return .trigger (← ids) flow wait hint
     | "remove_tasks" =>
       let fl := ((jArrField? args "flow").getD []).filterMap jStr?
       let flows ← if fl == ["all"] then pure [] else fl.mapM fun t => req t.toNat? "flow number"
       let order ← ((jArrField? j "rm").getD []).mapM fun t => do parseTaskId (← req (jStr? t) "task id")
-      return .rm (← ids) flows order
+      return .rm (← ids) flows order (← parseChildHints (jArrField? j "ch"))
     | "pause" => return .pause
     | "resume" => return .resume
     | "stop" =>
